@@ -37,7 +37,9 @@ theorem okDecl_of_lookup {tbl : Table} (ht : okTable tbl = true) {f : String} {d
     (h : lookup tbl f = some d) : okS tbl d.hasSeed d.body = true := by
   unfold okTable at ht
   rw [List.all_eq_true] at ht
-  exact ht (f, d) (lookup_mem h)
+  have := ht (f, d) (lookup_mem h)
+  simp only [okDecl, Bool.and_eq_true] at this
+  exact this.1
 
 /-- frame kind ↦ "this frame belongs to a function with a seed parameter" -/
 def seedfulOf : Local → Bool
@@ -155,8 +157,8 @@ theorem helper_sound {tbl : Table} (ht : okTable tbl = true) {f : String} {d : F
 
 /-- the per-function obligation `ok tbl f = true` is what the table check asks of `f` -/
 theorem ok_iff {tbl : Table} {f : String} :
-    ok tbl f = true ↔ ∃ d, lookup tbl f = some d ∧ okS tbl d.hasSeed d.body = true := by
-  unfold ok okDecl
+    ok tbl f = true ↔ ∃ d, lookup tbl f = some d ∧ okDecl tbl d = true := by
+  unfold ok
   cases h : lookup tbl f with
   | none => simp
   | some d => simp
@@ -328,40 +330,367 @@ theorem localOf_glob_iff (s : SeedVal) : localOf s = .glob ↔ (s = .none ∨ s 
 theorem localOf_priv (s : SeedVal) (h : s ≠ .none ∧ s ≠ .npRandom) : localOf s = .priv := by
   cases s <;> simp_all [localOf, getRng]
 
-/-! ## `get_rng` connected to the run semantics -/
+/-! ## `get_rng` connected to the run semantics; integer seed ≡ RandomState(integer) -/
 
-/-- **"the same result for an integer seed as for a RandomState constructed from that integer".**  In the model, a
-    run with `seed = k` and a run with `seed = RandomState(k)` (fresh, no draw made) are the same run: both read stream
-    `k` from position 0.  NOTE: this holds *by the definition of the hand model* `getRng` (an int is turned into
-    `RandomState(int)`); that the real `get_rng` behaves like the hand model is established by the correspondence cases
-    of the check (identity / state comparison on the real function), not by a proof. -/
-theorem runSeed_int_eq_randomState (tbl : Table) (σ : SeedStreams) (ctl : List Nat → Nat → Bool) (n k : Nat)
-    (body : Stmt) (st : St) :
-    runSeed tbl σ ctl n (.int k) body st = runSeed tbl σ ctl n (.randomState k 0) body st := rfl
+/-- two states that agree on everything but the position of the private stream -/
+def SameButPriv (a b : St) : Prop :=
+  a.hist = b.hist ∧ a.steps = b.steps ∧ a.npPos = b.npPos ∧ a.pyPos = b.pyPos ∧ a.unkPos = b.unkPos
 
-/-- seeded call through `getRng`: for a disciplined function the run is determined by the stream of the caller's seed
-    alone (from the position the caller's generator stands at), and the global generators are not advanced -/
+/-- both runs run out of fuel, or both finish in related states -/
+def RelO (R : St → St → Prop) (x y : Option St) : Prop :=
+  (x = none ∧ y = none) ∨ ∃ a b, x = some a ∧ y = some b ∧ R a b
+
+theorem RelO_mono {R R' : St → St → Prop} (h : ∀ a b, R a b → R' a b) {x y} (hx : RelO R x y) : RelO R' x y := by
+  rcases hx with h0 | ⟨a, b, ha, hb, hr⟩
+  · exact Or.inl h0
+  · exact Or.inr ⟨a, b, ha, hb, h a b hr⟩
+
+theorem SameButPriv_tick {a b : St} (h : SameButPriv a b) : SameButPriv (tick a) (tick b) := by
+  obtain ⟨h1, h2, h3, h4, h5⟩ := h
+  exact ⟨h1, by simp [tick, h2], h3, h4, h5⟩
+
+/-- a helper without seed parameter (draw-free by the discipline) neither reads nor moves the private stream: runs from
+    states that differ only in its position stay in step -/
+theorem helper_shift {tbl : Table} (ht : okTable tbl = true) (σ : Streams) (ctl : List Nat → Nat → Bool) :
+    ∀ (n : Nat) (s : Stmt) (a b : St), okS tbl false s = true → SameButPriv a b →
+      RelO (fun x y => SameButPriv x y ∧ x.privPos = a.privPos ∧ y.privPos = b.privPos)
+        (run tbl σ ctl n .none s a) (run tbl σ ctl n .none s b) := by
+  intro n
+  induction n with
+  | zero => intro s a b _ _; exact Or.inl ⟨by simp [run], by simp [run]⟩
+  | succ n ih =>
+    intro s a b hok hab
+    cases s with
+    | bindRng => simp [okS] at hok
+    | draw g => simp [okS] at hok
+    | call f a' =>
+      simp only [okS, okCall] at hok
+      cases hl : lookup tbl f with
+      | none => simp [hl] at hok
+      | some d =>
+        simp only [hl] at hok
+        cases hd : d.hasSeed with
+        | true => simp [hd] at hok
+        | false =>
+          have hbody := okDecl_of_lookup ht hl
+          rw [hd] at hbody
+          simp only [run, hl]
+          have hl' : calleeLocal d.hasSeed a' .none = .none := by simp [calleeLocal, hd]
+          rw [hl']
+          exact ih d.body a b hbody hab
+    | seq ss =>
+      cases ss with
+      | nil => exact Or.inr ⟨a, b, by simp [run], by simp [run], hab, rfl, rfl⟩
+      | cons s ss =>
+        obtain ⟨h1, h2⟩ := okS_seq_tail hok
+        simp only [run]
+        rcases ih s a b h1 hab with ⟨e1, e2⟩ | ⟨x, y, e1, e2, hxy, px, py⟩
+        · exact Or.inl ⟨by simp [e1], by simp [e2]⟩
+        · simp only [e1, e2]
+          rcases ih (.seq ss) x y h2 hxy with ⟨f1, f2⟩ | ⟨u, v, f1, f2, huv, pu, pv⟩
+          · exact Or.inl ⟨f1, f2⟩
+          · exact Or.inr ⟨u, v, f1, f2, huv, pu.trans px, pv.trans py⟩
+    | branch s1 s2 =>
+      simp only [okS, Bool.and_eq_true] at hok
+      simp only [run]
+      have hc : ctl a.hist a.steps = ctl b.hist b.steps := by rw [hab.1, hab.2.1]
+      rw [hc]
+      have ht' := SameButPriv_tick hab
+      cases ctl b.hist b.steps with
+      | true =>
+        simp only [if_true]
+        exact RelO_mono (fun x y h => ⟨h.1, by simpa [tick] using h.2.1, by simpa [tick] using h.2.2⟩) (ih s1 _ _ hok.1 ht')
+      | false =>
+        simp only [Bool.false_eq_true, if_false]
+        exact RelO_mono (fun x y h => ⟨h.1, by simpa [tick] using h.2.1, by simpa [tick] using h.2.2⟩) (ih s2 _ _ hok.2 ht')
+    | loop s1 =>
+      have hb : okS tbl false s1 = true := by simpa [okS] using hok
+      simp only [run]
+      have hc : ctl a.hist a.steps = ctl b.hist b.steps := by rw [hab.1, hab.2.1]
+      rw [hc]
+      have ht' := SameButPriv_tick hab
+      cases ctl b.hist b.steps with
+      | true =>
+        simp only [if_true]
+        rcases ih s1 _ _ hb ht' with ⟨e1, e2⟩ | ⟨x, y, e1, e2, hxy, px, py⟩
+        · exact Or.inl ⟨by simp [e1], by simp [e2]⟩
+        · simp only [e1, e2]
+          rcases ih (.loop s1) x y hok hxy with ⟨f1, f2⟩ | ⟨u, v, f1, f2, huv, pu, pv⟩
+          · exact Or.inl ⟨f1, f2⟩
+          · refine Or.inr ⟨u, v, f1, f2, huv, ?_, ?_⟩
+            · rw [pu, px]; simp [tick]
+            · rw [pv, py]; simp [tick]
+      | false =>
+        simp only [Bool.false_eq_true, if_false]
+        exact Or.inr ⟨tick a, tick b, rfl, rfl, ht', by simp [tick], by simp [tick]⟩
+
+/-- how the integer-seeded run and the RandomState-seeded run are related in each flow state -/
+def Rel : FState → St → St → Prop
+  | .fresh, a, b => a = b ∧ a.privPos = 0
+  | .used, a, b => a = b
+  | .done, a, b => SameButPriv a b
+
+theorem Rel_same {q : FState} {a b : St} (h : Rel q a b) : SameButPriv a b := by
+  cases q with
+  | fresh => obtain ⟨rfl, _⟩ := h; exact ⟨rfl, rfl, rfl, rfl, rfl⟩
+  | used => cases h; exact ⟨rfl, rfl, rfl, rfl, rfl⟩
+  | done => exact h
+
+theorem Rel_mono {q q' : FState} (hq : q.rank ≤ q'.rank) {a b : St} (h : Rel q a b) : Rel q' a b := by
+  cases q <;> cases q' <;> simp [FState.rank] at hq <;> first | exact h | exact h.1 | exact Rel_same h
+
+theorem Rel_tick {q : FState} {a b : St} (h : Rel q a b) : Rel q (tick a) (tick b) := by
+  cases q with
+  | fresh => obtain ⟨rfl, h0⟩ := h; exact ⟨rfl, by simpa [tick] using h0⟩
+  | used => cases h; rfl
+  | done => exact SameButPriv_tick h
+
+theorem join_ge_left (a b : FState) : a.rank ≤ (a.join b).rank := by
+  unfold FState.join; split <;> simp_all
+theorem join_ge_right (a b : FState) : b.rank ≤ (a.join b).rank := by
+  unfold FState.join; split <;> simp_all <;> omega
+theorem join_of_le {a b : FState} (h : b.le a = true) : a.join b = a := by
+  cases a <;> cases b <;> simp_all [FState.le, FState.join, FState.rank]
+
+theorem flow_of_lookup {tbl : Table} (ht : okTable tbl = true) {f : String} {d : FnDecl}
+    (h : lookup tbl f = some d) (hs : d.hasSeed = true) : ∃ q, flow tbl d.body .fresh = some q := by
+  unfold okTable at ht
+  rw [List.all_eq_true] at ht
+  have := ht (f, d) (lookup_mem h)
+  simp only [okDecl, Bool.and_eq_true, Bool.or_eq_true, Bool.not_eq_true', hs] at this
+  rcases this.2 with h0 | h1
+  · cases h0
+  · exact Option.isSome_iff_exists.mp h1
+
+/-- **Key lemma for "int seed ≡ RandomState(int)".**  For a statement that passes the discipline and the restart-safety
+    flow check, the integer-seeded run (`runInt`: every `get_rng(seed)` restarts the stream) and the RandomState-seeded run
+    (`run … .priv`: one generator object that keeps advancing) stay related as the flow state says: identical states while
+    nothing was forwarded, identical up to the private position afterwards. -/
+theorem int_eq_obj {tbl : Table} (ht : okTable tbl = true) (σ : Streams) (ctl : List Nat → Nat → Bool) :
+    ∀ (n : Nat) (s : Stmt) (q q' : FState) (a b : St), okS tbl true s = true → flow tbl s q = some q' → Rel q a b →
+      RelO (Rel q') (runInt tbl σ ctl n s a) (run tbl σ ctl n .priv s b) := by
+  intro n
+  induction n with
+  | zero => intro s q q' a b _ _ _; exact Or.inl ⟨by simp [runInt], by simp [run]⟩
+  | succ n ih =>
+    intro s q q' a b hok hfl hr
+    cases s with
+    | bindRng =>
+      simp only [flow] at hfl
+      split at hfl
+      · rename_i hq
+        cases hfl; subst hq
+        obtain ⟨rfl, h0⟩ := hr
+        refine Or.inr ⟨{ a with privPos := 0 }, a, by simp only [runInt], by simp only [run], ?_, rfl⟩
+        cases a; simp_all
+      · cases hfl
+    | draw g =>
+      simp only [okS, Bool.true_and, beq_iff_eq] at hok
+      subst hok
+      simp only [flow] at hfl
+      split at hfl
+      · cases hfl
+      · rename_i hq
+        cases hfl
+        have hab : a = b := by
+          cases q with
+          | fresh => exact hr.1
+          | used => exact hr
+          | done => exact absurd rfl hq
+        subst hab
+        exact Or.inr ⟨pull σ (srcOf .localRng .priv) a, pull σ (srcOf .localRng .priv) a,
+          by simp only [runInt], by simp only [run], rfl⟩
+    | call f a' =>
+      simp only [okS, okCall] at hok
+      cases hl : lookup tbl f with
+      | none => simp [hl] at hok
+      | some d =>
+        simp only [hl] at hok
+        simp only [flow, hl] at hfl
+        have hbody := okDecl_of_lookup ht hl
+        cases hd : d.hasSeed with
+        | true =>
+          rw [hd] at hbody
+          simp only [hd, if_true, Bool.true_and, Bool.or_eq_true, beq_iff_eq] at hok hfl
+          by_cases hsp : a' = .seedParam
+          · subst hsp
+            simp only [if_true] at hfl
+            split at hfl
+            · rename_i hq
+              cases hfl; subst hq
+              obtain ⟨rfl, h0⟩ := hr
+              obtain ⟨q2, hq2⟩ := flow_of_lookup ht hl hd
+              simp only [runInt, run, hl, hd, Bool.true_and, beq_self_eq_true, if_true, calleeLocal]
+              have hrel : Rel .fresh { a with privPos := 0 } a := ⟨by cases a; simp_all, rfl⟩
+              rcases ih d.body .fresh q2 _ _ hbody hq2 hrel with ⟨e1, e2⟩ | ⟨x, y, e1, e2, hxy⟩
+              · exact Or.inl ⟨by simp [e1], e2⟩
+              · refine Or.inr ⟨{ x with privPos := a.privPos }, y, by simp [e1], e2, ?_⟩
+                have h := Rel_same hxy
+                exact ⟨h.1, h.2.1, h.2.2.1, h.2.2.2.1, h.2.2.2.2⟩
+            · cases hfl
+          · simp only [hsp, if_false] at hfl
+            have harg : a' = .rngObj := by rcases hok with h | h; exact h; exact absurd h hsp
+            subst harg
+            split at hfl
+            · cases hfl
+            · rename_i hq
+              cases hfl
+              have hab : a = b := by
+                cases q with
+                | fresh => exact hr.1
+                | used => exact hr
+                | done => exact absurd rfl hq
+              subst hab
+              simp only [runInt, run, hl, hd, Bool.true_and]
+              have : (SeedArg.rngObj == SeedArg.seedParam) = false := by decide
+              simp only [this, Bool.false_eq_true, if_false]
+              cases hrun : run tbl σ ctl n (calleeLocal true SeedArg.rngObj Local.priv) d.body a with
+              | none => exact Or.inl ⟨rfl, rfl⟩
+              | some x => exact Or.inr ⟨x, x, rfl, rfl, rfl⟩
+        | false =>
+          rw [hd] at hbody
+          simp only [hd, Bool.false_eq_true, if_false, beq_iff_eq] at hok hfl
+          cases hfl
+          simp only [runInt, run, hl, hd, Bool.false_and, Bool.false_eq_true, if_false]
+          have hl' : calleeLocal false a' .priv = .none := by simp [calleeLocal]
+          rw [hl']
+          have hs := helper_shift ht σ ctl n d.body a b hbody (Rel_same hr)
+          rcases hs with h0 | ⟨x, y, e1, e2, hxy, px, py⟩
+          · exact Or.inl h0
+          · refine Or.inr ⟨x, y, e1, e2, ?_⟩
+            cases q with
+            | done => exact hxy
+            | used =>
+              cases hr
+              rw [e1] at e2; cases e2; rfl
+            | fresh =>
+              obtain ⟨rfl, h0⟩ := hr
+              rw [e1] at e2; cases e2
+              exact ⟨rfl, px.trans h0⟩
+    | seq ss =>
+      cases ss with
+      | nil =>
+        simp only [flow, flowL] at hfl; cases hfl
+        exact Or.inr ⟨a, b, by simp [runInt], by simp [run], hr⟩
+      | cons s ss =>
+        obtain ⟨h1, h2⟩ := okS_seq_tail hok
+        simp only [flow, flowL] at hfl
+        cases hf1 : flow tbl s q with
+        | none => simp [hf1] at hfl
+        | some q1 =>
+          simp only [hf1] at hfl
+          have hf2 : flow tbl (.seq ss) q1 = some q' := by simpa [flow] using hfl
+          simp only [runInt, run]
+          rcases ih s q q1 a b h1 hf1 hr with ⟨e1, e2⟩ | ⟨x, y, e1, e2, hxy⟩
+          · exact Or.inl ⟨by simp [e1], by simp [e2]⟩
+          · simp only [e1, e2]
+            exact ih (.seq ss) q1 q' x y h2 hf2 hxy
+    | branch s1 s2 =>
+      simp only [okS, Bool.and_eq_true] at hok
+      simp only [flow] at hfl
+      cases hf1 : flow tbl s1 q with
+      | none => simp [hf1] at hfl
+      | some x1 =>
+        cases hf2 : flow tbl s2 q with
+        | none => simp [hf1, hf2] at hfl
+        | some x2 =>
+          simp only [hf1, hf2, Option.some.injEq] at hfl; subst hfl
+          have hsame := Rel_same hr
+          have hc : ctl a.hist a.steps = ctl b.hist b.steps := by rw [hsame.1, hsame.2.1]
+          simp only [runInt, run]
+          rw [hc]
+          cases ctl b.hist b.steps with
+          | true =>
+            simp only [if_true]
+            exact RelO_mono (fun _ _ h => Rel_mono (join_ge_left x1 x2) h) (ih s1 q x1 _ _ hok.1 hf1 (Rel_tick hr))
+          | false =>
+            simp only [Bool.false_eq_true, if_false]
+            exact RelO_mono (fun _ _ h => Rel_mono (join_ge_right x1 x2) h) (ih s2 q x2 _ _ hok.2 hf2 (Rel_tick hr))
+    | loop s1 =>
+      have hb : okS tbl true s1 = true := by simpa [okS] using hok
+      simp only [flow] at hfl
+      cases hf1 : flow tbl s1 q with
+      | none => simp [hf1] at hfl
+      | some q1 =>
+        simp only [hf1] at hfl
+        cases hf2 : flow tbl s1 (q.join q1) with
+        | none => simp [hf2] at hfl
+        | some q2 =>
+          simp only [hf2] at hfl
+          cases hf3 : flow tbl s1 ((q.join q1).join q2) with
+          | none => simp [hf3] at hfl
+          | some q3 =>
+            simp only [hf3] at hfl
+            split at hfl
+            · rename_i hle
+              cases hfl
+              -- `inv` is inductive for the body; re-analysing the loop from `inv` gives `inv`
+              have hinv : Rel ((q.join q1).join q2) a b :=
+                Rel_mono (Nat.le_trans (join_ge_left q q1) (join_ge_left _ q2)) hr
+              have hj : ((q.join q1).join q2).join q3 = (q.join q1).join q2 := join_of_le hle
+              have hloop : flow tbl (.loop s1) ((q.join q1).join q2) = some ((q.join q1).join q2) := by
+                simp only [flow, hf3, hj, hle, if_true]
+              have hsame := Rel_same hinv
+              have hc : ctl a.hist a.steps = ctl b.hist b.steps := by rw [hsame.1, hsame.2.1]
+              simp only [runInt, run]
+              rw [hc]
+              cases ctl b.hist b.steps with
+              | true =>
+                simp only [if_true]
+                rcases ih s1 _ q3 _ _ hb hf3 (Rel_tick hinv) with ⟨e1, e2⟩ | ⟨x, y, e1, e2, hxy⟩
+                · exact Or.inl ⟨by simp [e1], by simp [e2]⟩
+                · simp only [e1, e2]
+                  have hxy' : Rel ((q.join q1).join q2) x y := Rel_mono (by simpa [FState.le] using hle) hxy
+                  exact ih (.loop s1) _ _ x y hok hloop hxy'
+              | false =>
+                simp only [Bool.false_eq_true, if_false]
+                exact Or.inr ⟨tick a, tick b, rfl, rfl, Rel_tick hinv⟩
+            · cases hfl
+
+/-- **"the same result for an integer seed as for a RandomState constructed from that integer".**  For a function of a
+    disciplined table (discipline + restart safety, both part of the generated obligation), the run with `seed = k` and the
+    run with `seed = RandomState(k)` (fresh) either both exhaust the fuel or both finish having drawn the same values, taken
+    the same decisions and left the global streams at the same positions.  This is a theorem about the two *different*
+    semantics `runInt` (every `get_rng(seed)` makes a new generator at position 0) and `run … .priv` (one generator object);
+    that the real `get_rng` turns an int into a fresh `RandomState(int)` is the hand model `getRng`, tied to the real
+    function by the correspondence cases of the check. -/
+theorem runSeed_int_eq_randomState {tbl : Table} (ht : okTable tbl = true) {f : String} {d : FnDecl}
+    (hf : lookup tbl f = some d) (hseed : d.hasSeed = true) (σ : SeedStreams) (ctl : List Nat → Nat → Bool) (n k : Nat)
+    (st : St) :
+    RelO SameButPriv (runSeed tbl σ ctl n (.int k) d.body st) (runSeed tbl σ ctl n (.randomState k 0) d.body st) := by
+  have hbody := okDecl_of_lookup ht hf
+  rw [hseed] at hbody
+  obtain ⟨q, hq⟩ := flow_of_lookup ht hf hseed
+  unfold runSeed
+  exact RelO_mono (fun _ _ h => Rel_same h)
+    (int_eq_obj ht (σ.streams k) ctl n d.body .fresh q _ _ hbody hq ⟨rfl, rfl⟩)
+
+/-- seeded call with a `RandomState`: for a disciplined function the run is determined by the stream of the caller's
+    generator alone (from the position it stands at), and the global generators are not advanced; with
+    `runSeed_int_eq_randomState` the same holds for the values drawn under an integer seed -/
 theorem runSeed_seeded {tbl : Table} (ht : okTable tbl = true) {f : String} {d : FnDecl}
-    (hf : lookup tbl f = some d) (hseed : d.hasSeed = true) {s : SeedVal} {k pos : Nat} (hs : getRng s = .stream k pos)
+    (hf : lookup tbl f = some d) (hseed : d.hasSeed = true) (k pos : Nat)
     (σ σ' : SeedStreams) (hσ : σ.privOf k = σ'.privOf k) (ctl : List Nat → Nat → Bool) (n : Nat) (st : St) :
-    runSeed tbl σ ctl n s d.body st = runSeed tbl σ' ctl n s d.body st ∧
-    ∀ st', runSeed tbl σ ctl n s d.body st = some st' →
+    runSeed tbl σ ctl n (.randomState k pos) d.body st = runSeed tbl σ' ctl n (.randomState k pos) d.body st ∧
+    ∀ st', runSeed tbl σ ctl n (.randomState k pos) d.body st = some st' →
       st'.npPos = st.npPos ∧ st'.pyPos = st.pyPos ∧ st'.unkPos = st.unkPos := by
   unfold runSeed
-  simp only [hs]
   obtain ⟨e, p⟩ := seeded_deterministic ht hf hseed (σ.streams k) (σ'.streams k) (by simpa [SeedStreams.streams] using hσ)
     ctl n { st with privPos := pos }
   exact ⟨e, fun st' h => p st' h⟩
 
-/-- unseeded call through `getRng` (`None` or `np.random`): determined by the global NumPy stream alone -/
+/-- unseeded call (`None` or `np.random`): determined by the global NumPy stream alone -/
 theorem runSeed_unseeded {tbl : Table} (ht : okTable tbl = true) {f : String} {d : FnDecl}
     (hf : lookup tbl f = some d) (hseed : d.hasSeed = true) {s : SeedVal} (hs : getRng s = .global)
     (σ σ' : SeedStreams) (hσ : σ.np = σ'.np) (ctl : List Nat → Nat → Bool) (n : Nat) (st : St) :
     runSeed tbl σ ctl n s d.body st = runSeed tbl σ' ctl n s d.body st ∧
     ∀ st', runSeed tbl σ ctl n s d.body st = some st' → st'.pyPos = st.pyPos ∧ st'.unkPos = st.unkPos := by
-  unfold runSeed
-  simp only [hs]
-  exact unseeded_deterministic ht hf hseed (σ.streams 0) (σ'.streams 0) (by simpa [SeedStreams.streams] using hσ) ctl n st
+  have hu := unseeded_deterministic ht hf hseed (σ.streams 0) (σ'.streams 0) (by simpa [SeedStreams.streams] using hσ) ctl n st
+  cases s with
+  | none => simpa [runSeed] using hu
+  | npRandom => simpa [runSeed] using hu
+  | randomState k pos => simp [getRng] at hs
+  | int k => simp [getRng] at hs
 
 /-! ## non-vacuity: a concrete table, a concrete bad skeleton, concrete executions -/
 
@@ -382,6 +711,23 @@ example : ok [("g", ⟨true, .bindRng⟩), ("f", ⟨true, .seq [.bindRng, .call 
 example : ok [("g", ⟨true, .bindRng⟩), ("f", ⟨true, .seq [.bindRng, .call "g" .noneLit]⟩)] "f" = false := by decide
 example : okTable [("h", ⟨false, .draw .globalRng⟩), ("f", ⟨true, .call "h" .absent⟩)] = false := by decide
 example : ok [("f", ⟨true, .call "nowhere" .rngObj⟩)] "f" = false := by decide
+
+/-- restart safety: forwarding the *seed parameter* after an own draw (an int seed restarts the stream in the callee, a
+    RandomState continues it), forwarding it twice, and re-binding the generator after a draw are rejected; forwarding it
+    as the only use of the seed is accepted -/
+def exG : String × FnDecl := ("g", ⟨true, .seq [.bindRng, .draw .localRng]⟩)
+example : ok [exG, ("f", ⟨true, .seq [.bindRng, .draw .localRng, .call "g" .seedParam]⟩)] "f" = false := by decide
+example : ok [exG, ("f", ⟨true, .seq [.call "g" .seedParam, .call "g" .seedParam]⟩)] "f" = false := by decide
+example : ok [exG, ("f", ⟨true, .loop (.call "g" .seedParam)⟩)] "f" = false := by decide
+example : ok [exG, ("f", ⟨true, .seq [.bindRng, .draw .localRng, .bindRng, .draw .localRng]⟩)] "f" = false := by decide
+example : ok [exG, ("f", ⟨true, .seq [.bindRng, .call "g" .seedParam]⟩)] "f" = true := by decide
+example : ok [exG, ("f", ⟨true, .seq [.bindRng, .draw .localRng, .call "g" .rngObj, .draw .localRng]⟩)] "f" = true := by decide
+/-- and the two semantics really differ on the rejected pattern: with stream 10, 11, 12, … the int-seeded run draws
+    10 and again 10 in the callee, the RandomState-seeded run draws 10 and 11 -/
+example : (runInt [exG] ⟨fun i => 10 + i, fun _ => 0, fun _ => 0, fun _ => 0⟩ (fun _ _ => false) 9
+            (.seq [.bindRng, .draw .localRng, .call "g" .seedParam]) ⟨[], 0, 0, 0, 0, 0⟩).map (·.hist) = some [10, 10] := by decide
+example : (run [exG] ⟨fun i => 10 + i, fun _ => 0, fun _ => 0, fun _ => 0⟩ (fun _ _ => false) 9 .priv
+            (.seq [.bindRng, .draw .localRng, .call "g" .seedParam]) ⟨[], 0, 0, 0, 0, 0⟩).map (·.hist) = some [11, 10] := by decide
 
 /-- the hypotheses of `disciplined_sound` are satisfiable with a non-trivial execution (two draws) … -/
 example : Exec exTable .priv (.seq [.draw .localRng, .draw .localRng]) ⟨3, 4, false⟩ ⟨3, 4, false⟩ :=
